@@ -74,8 +74,21 @@ const (
 	MaxRefLoads  = 4000
 )
 
-func walk(root cid.Cid, sel ipld.Node, res resolver, budget int64) *Ref {
+func walk(root cid.Cid, sel ipld.Node, res resolver, budget int64, nblocks int) *Ref {
 	ref := &Ref{FromRemote: map[cid.Cid]bool{}}
+	// a recursion whose body holds several recursive edges makes go-ipld-prime's selector machinery grow
+	// exponentially with the depth it reaches (observed: > 60 GB on a 30-block DAG); beyond a depth of 14
+	// (more than any quick-tier DAG has) such selectors are outside the generated domain
+	if edges, limit := recursionShape(sel); edges >= 2 {
+		depth := int64(nblocks)
+		if limit >= 0 && limit < depth {
+			depth = limit
+		}
+		if depth > 14 {
+			ref.Err = ErrTooLarge
+			return ref
+		}
+	}
 	lsys := cidlink.DefaultLinkSystem()
 	lsys.TrustedStorage = true
 	lsys.StorageReadOpener = func(lctx linking.LinkContext, l datamodel.Link) (io.Reader, error) {
@@ -138,6 +151,46 @@ func walk(root cid.Cid, sel ipld.Node, res resolver, budget int64) *Ref {
 	return ref
 }
 
+// recursionShape counts the recursive-edge markers in a selector spec and returns the smallest recursion
+// limit found (-1 = none).
+func recursionShape(n datamodel.Node) (edges int, limit int64) {
+	limit = -1
+	var rec func(n datamodel.Node)
+	rec = func(n datamodel.Node) {
+		switch n.Kind() {
+		case datamodel.Kind_Map:
+			it := n.MapIterator()
+			for !it.Done() {
+				k, v, err := it.Next()
+				if err != nil {
+					return
+				}
+				ks, _ := k.AsString()
+				if ks == "@" {
+					edges++
+				}
+				if ks == "depth" {
+					if d, err := v.AsInt(); err == nil && (limit < 0 || d < limit) {
+						limit = d
+					}
+				}
+				rec(v)
+			}
+		case datamodel.Kind_List:
+			it := n.ListIterator()
+			for !it.Done() {
+				_, v, err := it.Next()
+				if err != nil {
+					return
+				}
+				rec(v)
+			}
+		}
+	}
+	rec(n)
+	return edges, limit
+}
+
 func isSkip(err error) bool {
 	_, ok := err.(traversal.SkipMe)
 	return ok
@@ -148,7 +201,7 @@ func RefFull(b *Built, sel ipld.Node) *Ref {
 	return walk(b.Root, sel, func(_ datamodel.Path, c cid.Cid) ([]byte, string, bool) {
 		d, ok := b.Data[c]
 		return d, "local", ok
-	}, 0)
+	}, 0, len(b.Data))
 }
 
 // RefStore traverses over one store (the responder's own traversal); budget 0 = none.
@@ -156,7 +209,7 @@ func RefStore(root cid.Cid, store map[cid.Cid][]byte, sel ipld.Node, budget int6
 	return walk(root, sel, func(_ datamodel.Path, c cid.Cid) ([]byte, string, bool) {
 		d, ok := store[c]
 		return d, "local", ok
-	}, budget)
+	}, budget, len(store))
 }
 
 // pathHasStrictPrefixIn reports whether some strict prefix of p is in set.
@@ -202,7 +255,7 @@ func RefExchange(root cid.Cid, reqStore, respStore map[cid.Cid][]byte, sel ipld.
 			return respStore[c], "remote", true
 		}
 		return nil, "", false
-	}, 0)
+	}, 0, len(reqStore)+len(respStore))
 	ref.FromRemote = fromRemote
 	ref.LocalPrefix = prefix
 	_, has := respStore[root]
